@@ -241,21 +241,24 @@ def canon(t):
 
 
 def min_assignment(cost):
-    """brute-force optimum of the square assignment problem (independent of scipy)"""
+    """exact optimum of the square assignment problem by dynamic programming over column subsets
+    (independent of scipy; n <= 14)"""
     n = len(cost)
     if n == 0:
         return 0
-    best = None
-    for perm in itertools.permutations(range(n)):
-        s = 0
-        for i, j in enumerate(perm):
-            s += cost[i][j]
-            if best is not None and s >= best:
-                break
-        else:
-            if best is None or s < best:
-                best = s
-    return best
+    INF = float("inf")
+    best = {0: 0}
+    for i in range(n):
+        nxt = {}
+        for mask, v in best.items():
+            for j in range(n):
+                if not mask & (1 << j):
+                    m2 = mask | (1 << j)
+                    c = v + cost[i][j]
+                    if c < nxt.get(m2, INF):
+                        nxt[m2] = c
+        best = nxt
+    return best[(1 << n) - 1]
 
 
 def oracle_matching_cluster(t1, t2):
@@ -266,6 +269,7 @@ def oracle_matching_cluster(t1, t2):
     while len(c2) < len(c1):
         c2.append(set())
     return min_assignment([[len(a ^ b) for b in c2] for a in c1])
+
 
 
 def oracle_lrm(t1, t2):
@@ -284,6 +288,96 @@ def oracle_lrm(t1, t2):
         return min(len(a ^ b), len(a ^ (tips - b)))
 
     return min_assignment([[w(a, b) for b in s2] for a in s1])
+
+
+def n_collapse(t, k, rng):
+    """contract up to k internal (non-root, non-tip) nodes into their parents (creates polytomies);
+    a contracted node's length is added to its children so path lengths stay the same"""
+    import copy
+
+    t = copy.deepcopy(t)
+    for _ in range(k):
+        cands = []
+
+        def walk(x):
+            for i, c in enumerate(x[2]):
+                if c[2]:
+                    cands.append((x, i))
+                    walk(c)
+
+        walk(t)
+        if not cands:
+            break
+        par, i = rng.choice(cands)
+        c = par[2][i]
+        kids = []
+        for g in c[2]:
+            ln = None if (g[1] is None or c[1] is None) else g[1] + c[1]
+            kids.append([g[0], ln, g[2]])
+        par[2][i : i + 1] = kids
+    return t
+
+
+def n_add_unary(t, k, rng, used):
+    """insert k single-child nodes on random edges, splitting the edge length"""
+    import copy
+
+    t = copy.deepcopy(t)
+    for j in range(k):
+        nodes = [(p, n) for p, n in n_internal_paths(t) if n[2]]
+        p, par = rng.choice(nodes)
+        i = rng.randrange(len(par[2]))
+        c = par[2][i]
+        if c[1] is None:
+            continue
+        a = Fraction(rng.randint(0, int(c[1] * 64)), 64)
+        nm = f"u{j}x{rng.randint(0, 10**6)}"
+        par[2][i] = [nm, c[1] - a if c[1] - a > 0 else Fraction(1, 64), [[c[0], a if a > 0 else Fraction(1, 64), c[2]]]]
+    return t
+
+
+def oracle_lca_tips(t, names):
+    """tips of the smallest clade (possibly the whole tree) containing all the names"""
+    names = set(names)
+
+    def go(x):
+        tips = set(n_tips(x))
+        if not names <= tips:
+            return None
+        for c in x[2]:
+            r = go(c)
+            if r is not None:
+                return r
+        return tips
+
+    return go(t)
+
+
+def oracle_tip_heights(t):
+    """{id-path: max root-ward distance from the node to a tip below it}"""
+    res = {}
+
+    def go(x, path):
+        if not x[2]:
+            res[path] = Fraction(0)
+            return Fraction(0)
+        h = max(go(c, path + (i,)) + (c[1] or 0) for i, c in enumerate(x[2]))
+        res[path] = h
+        return h
+
+    go(t, ())
+    return res
+
+
+def pearson(xs, ys):
+    n = len(xs)
+    mx, my = sum(xs) / n, sum(ys) / n
+    sxy = sum((x - mx) * (y - my) for x, y in zip(xs, ys))
+    sxx = sum((x - mx) ** 2 for x in xs)
+    syy = sum((y - my) ** 2 for y in ys)
+    if sxx == 0 or syy == 0:
+        return None
+    return float(sxy) / (float(sxx) ** 0.5 * float(syy) ** 0.5)
 
 
 def frac_json(t):
